@@ -62,6 +62,15 @@ theorem C16_handshake_reply (ms : List Member) (hwf : wellFormed ms = true) (nam
     handshake (commandTable ms) name (.valid width) {} = { ready := true, replies := [name] } := by
   simp [handshake, buildOk_of_wf hwf]
 
+/-- a long option string that resolves to the help action, written alone behind the command word, is a help request -/
+theorem parseCmd_help_long (m : Member) {n : Str} (hn : n ≠ []) (hres : resolveLong (optTable m.params) n = .one helpOpt) :
+    parseCmd (toCmd m) [.long n] = some (.help (some m.name)) := by
+  have hamb : [Tok.long n].any (ambiguousTok (optTable m.params)) = false := by
+    simp [ambiguousTok, hres, Resolved.isAmbiguous]
+  simp only [parseCmd, toCmd, hamb]
+  rw [scanOpts_long_cons hn, hres]
+  simp [helpOpt]
+
 /-- every command and the top level answer `-h` and `--help` with help (whatever follows) -/
 theorem C16_help_everywhere (ms : List Member) (hwf : wellFormed ms = true) (m : Member) (hm : m ∈ ms)
     (he : m.exposed = true) (w : Word) (hw : w.text = dash m.name) :
@@ -71,10 +80,43 @@ theorem C16_help_everywhere (ms : List Member) (hwf : wellFormed ms = true) (m :
     ∧ (∀ rest, rest.any Tok.isOther = false → parseLine (commandTable ms) (.long helpName :: rest) = some (.help none)) := by
   have hl := lookupCmd_exposed hwf hm he
   refine ⟨?_, ?_, ?_, ?_⟩
-  · simp [parseLine, Tok.isOther, hw, hl, parseCmd, toCmd, unknownLong, scanOpts, findShort, optTable, helpOpt]
-  · simp [parseLine, Tok.isOther, hw, hl, parseCmd, toCmd, unknownLong, scanOpts, findLong, optTable, helpOpt]
+  · simp [parseLine, Tok.isOther, hw, hl, parseCmd, toCmd, ambiguousTok, scanOpts, findShort, optTable, helpOpt]
+  · have hres : resolveLong (optTable m.params) helpName = .one helpOpt := by
+      simp [resolveLong, findLong, optTable, helpOpt]
+    have hnot : Tok.isOther (.long helpName) = false := rfl
+    have hw0 : Tok.isOther (.word w) = false := rfl
+    have : parseLine (commandTable ms) [.word w, .long helpName] = parseCmd (toCmd m) [.long helpName] := by
+      simp [parseLine, hnot, hw0, hw, hl]
+    rw [this]
+    exact parseCmd_help_long m (by decide) hres
   · intro rest hr; simp [parseLine, Tok.isOther, hr]
-  · intro rest hr; simp [parseLine, Tok.isOther, hr]
+  · intro rest hr; simp [parseLine, Tok.isOther, hr, helpName]
+
+/-- abbreviations of `--help` (argparse's `allow_abbrev`): at the top level `--h`, `--he`, `--hel` are help requests
+like `--help` itself (the top-level parser has no other long option); behind a command word every non-empty prefix
+of `help` that is a prefix of no other long option of that command is the command's help request -/
+theorem C16_help_abbreviated (ms : List Member) (hwf : wellFormed ms = true) (m : Member) (hm : m ∈ ms)
+    (he : m.exposed = true) (w : Word) (hw : w.text = dash m.name) (n : Str) (hn : n ≠ []) (hp : n <+: helpName) :
+    (∀ rest, rest.any Tok.isOther = false → parseLine (commandTable ms) (.long n :: rest) = some (.help none))
+    ∧ ((∀ o ∈ optTable m.params, n <+: o.long → o.long = helpName) →
+        parseLine (commandTable ms) [.word w, .long n] = some (.help (some m.name))) := by
+  have hnot : Tok.isOther (.long n) = false := by
+    cases n with
+    | nil => exact absurd rfl hn
+    | cons a l => rfl
+  constructor
+  · intro rest hr
+    simp [parseLine, hnot, hr, List.isPrefixOf_iff_prefix.mpr hp]
+  · intro hu
+    have hl := lookupCmd_exposed hwf hm he
+    have hres : resolveLong (optTable m.params) n = .one helpOpt :=
+      resolveLong_of_abbrev (optsOk_optTable (wf_params hwf hm he)) (by simp [optTable]) (by simpa [helpOpt] using hp)
+        (by simpa [helpOpt] using hu)
+    have hw0 : Tok.isOther (.word w) = false := rfl
+    have : parseLine (commandTable ms) [.word w, .long n] = parseCmd (toCmd m) [.long n] := by
+      simp [parseLine, hnot, hw0, hw, hl]
+    rw [this]
+    exact parseCmd_help_long m hn hres
 
 /-! non-vacuity: a three-member class (one public method with an `h…` option, one private method, one attribute) -/
 
@@ -89,5 +131,11 @@ example : wellFormed exMembers = true := by decide +kernel
 example : (commandTable exMembers).map (·.name) = [['s', 'a', 'y', '-', 'h', 'i']] := by decide +kernel
 example : assignFlags [exX, exHow] [] = [(exX, none), (exHow, some 'H')] := by decide +kernel
 example : buildOk (commandTable exMembers) = true := by decide +kernel
+def exSayWord : Word := { text := ['s', 'a', 'y', '-', 'h', 'i'], int? := none, floatOk := false, litOk := false, dotOk := false }
+-- `--he` at the top level and behind `say-hi` is help; `--h` behind `say-hi` could be `--help` or `--how`
+example : parseLine (commandTable exMembers) [.long ['h', 'e']] = some (.help none) := by decide +kernel
+example : parseLine (commandTable exMembers) [.word exSayWord, .long ['h', 'e']]
+    = some (.help (some ['s', 'a', 'y', '_', 'h', 'i'])) := by decide +kernel
+example : parseLine (commandTable exMembers) [.word exSayWord, .long ['h']] = some (.error .ambiguous) := by decide +kernel
 
 end Taskpool.Control
